@@ -88,6 +88,20 @@ def r1_fresh(cx, h, rule="C02.R1"):
                  note_ok="buffer is new/cleared on every path into read_until")
 
 
+def remembered_iface(body, du, h):
+    """locals holding the upgraded interface remembered across calls: what handle()'s last argument is read from"""
+    out = set()
+    if len(h.args) < 4 or h.args[3].place is None: return out
+    l = h.args[3].place.l
+    for _ in range(4):
+        out.add(ref_base(du, l)[0])
+        ds = du.value_defs(ref_base(du, l)[0])
+        nxt = [d for k, d in ds if k == "call" and not d.callee.indirect and d.callee.name in ("clone", "cloned", "as_ref", "to_owned", "take", "as_deref", "map") and d.args and d.args[0].place is not None]
+        if len(nxt) != 1 or len(ds) != 1: break
+        l = nxt[0].args[0].place.l
+    return out
+
+
 def r2_upgrade_tail(cx):
     """listen worker: after an Ok from handle(), the loop may only be left (or block for more input) with the tail abandoned when it is empty or no upgrade just happened"""
     body = cx.mir.one("varlink", "server::listen::{closure#1}")
@@ -119,39 +133,33 @@ def r2_upgrade_tail(cx):
                     if p.l == l and f[:len(pre) + 1] == pre + ("0",): seeds_tail.add(s.lhs.l)
                     if p.l == l and f[:len(pre) + 1] == pre + ("1",): seeds_if.add(s.lhs.l)
         Tt = forward_taint(body, du, seeds_tail, no_flow=("=is_empty", "=is_some", "=is_none", "=len"))
-        # edges that establish "tail is empty" or "no upgrade happened in this step"
-        good_edges = set()
-        for b in body.blocks:
-            if b.cleanup or b.term.kind != "switch": continue
-            term = b.term
-            c = switch_cond(body, du, term)
-            if c.kind == "call" and c.term.callee.name == "is_empty" and c.term.args and any(l in Tt for l in ref_chain(du, c.term.args[0].place.l)):
-                te, fe = bool_edges(term, c); good_edges.add((te[0], te[2]))
-            # a bool whose definitions include is_some(<returned interface>)
-            loc = term.discr.place.l if term.discr.place is not None and not term.discr.place.p else None
-            for _ in range(4):
-                if loc is None: break
-                ds = du.defs.get(loc, [])
-                hit = False
-                for k, d in ds:
-                    if k == "call" and d.callee.name == "is_some" and d.args and any(l in seeds_if for l in ref_chain(du, d.args[0].place.l)): hit = True
-                if hit:
-                    for lab, dst in cfg.succ[b.idx]:
-                        if lab == 0: good_edges.add((b.idx, dst))
-                    break
-                nxt = [d for k, d in ds if k == "stmt" and d.kind == "assign" and d.rv == "use" and d.ops[0].place is not None]
-                loc = nxt[0].ops[0].place.l if len(nxt) == 1 and len(ds) == 1 else None
+        Ti = forward_taint(body, du, seeds_if, no_flow=("=is_empty", "=is_some", "=is_none", "=len"))
+        # what a path must have established before it may wait for more input or leave: the tail is empty, or no upgrade happened in this step
+        from vlib.pathcond import literals
+        def arg_in(term, T):
+            return bool(term.args) and term.args[0].place is not None and any(l in T for l in ref_chain(du, term.args[0].place.l) + [ref_base(du, term.args[0].place.l)[0]])
+        P = remembered_iface(body, du, t)
+        def establishes(lit):
+            if lit.kind != "call" or not lit.obj.args or lit.obj.args[0].place is None: return False
+            n = lit.obj.callee.name
+            if n == "is_empty" and lit.truth and arg_in(lit.obj, Tt): return True          # nothing left in the tail
+            base = ref_base(du, lit.obj.args[0].place.l)[0]
+            if base in P:
+                # the connection was upgraded already before this step (the interface remembered from earlier calls is set)
+                return (n == "is_none" and not lit.truth) or (n == "is_some" and lit.truth)
+            if arg_in(lit.obj, Ti):
+                return (n == "is_some" and not lit.truth) or (n == "is_none" and lit.truth)     # handle() reported no upgrade
+            return False
         blocking = {x.bb for x in body.calls("=fill_buf", "=read", "=read_until", "=read_exact", "=read_line") if x.bb != t.bb}
         stops = {t.bb} | blocking
         paths = enumerate_paths(cfg, ok_edge[2], lambda blk: blk.idx in stops or blk.term.kind == "return", du=du)
-        badp = []
+        badp = []; ngood = 0
         for p in paths:
             end = p[-1]
             if end == t.bb: continue                      # goes straight back into handle(): tail is re-fed (R2)
-            edges = set(zip(p, p[1:]))
-            if edges & good_edges: continue
+            if any(establishes(l) for l in literals(body, p)): ngood += 1; continue
             badp.append(p)
-        cx.check(not badp and bool(good_edges), "C02.R2", key, site,
+        cx.check(not badp and ngood > 0, "C02.R2", key, site,
                  "%d path(s) from handle()'s Ok edge block on the stream or leave the loop although an upgrade may just have happened with bytes still in the tail (e.g. blocks %s): those bytes never reach call_upgraded" % (len(badp), badp[0][:25] if badp else "-"),
                  note_ok="%d paths; waiting/leaving only behind `tail.is_empty()` or `no upgrade`" % len(paths), witness={"path": badp[0] if badp else None})
 
